@@ -192,7 +192,7 @@ theorem complete_calls {s : Simp} (hs : SimpSound s) {o : Oracle} (ho : OracleSo
     (n : Nat) (w' : Evm.World) (h : Evm.Halt) (hex : Evm.exec p n w f0 = some (w', h)) :
     (∃ ce ∈ (runC s o cfg env codes this fuel).ends, Sat I ce.e.st.path ∧
         ((∃ h0, ce.e.out = .halt h0 ∧ haltWith h0 (ce.e.data.map (·.eval I)) = h ∧ ce.e.tag = .normal ∧
-            WRelM I (Modelled codes this) w w' (stoOf ce.stores) ∧ (∀ b ∈ ce.e.data, b.WF ∧ b.width = 8)) ∨
+            WRelM I (Modelled codes this) w w' (stoOf ce.stores) (evalLogs I ce.logs) ∧ (∀ b ∈ ce.e.data, b.WF ∧ b.width = 8)) ∨
          (∃ r, ce.e.out = .stuck r) ∨ ce.e.tag ≠ .normal)) ∨
     (runC s o cfg env codes this fuel).boundedLoops ≠ [] ∨
     (runC s o cfg env codes this fuel).depthCut = true ∨
